@@ -176,4 +176,136 @@ theorem upd2_apply (a : Nat → Nat → β) (i j i' j' : Nat) (v : β) :
 theorem setRow_apply (a : Nat → Nat → β) (i i' : Nat) (r : Nat → β) :
     setRow a i r i' = if i' = i then r else a i' := rfl
 
+
+/-! ### loops with `break` -/
+
+theorem ite_iff_congr {p q : Prop} [Decidable p] [Decidable q] {a b : β} (h : p ↔ q) :
+    (if p then a else b) = if q then a else b := by
+  by_cases hq : q
+  · simp [hq, h.mpr hq]
+  · simp [hq, mt h.mp hq]
+
+
+/-- the (state, broken) pair after the loop -/
+def forRangeBrkAux (lo hi : Nat) (st : σ) (body : Nat → σ → σ × Bool) : σ × Bool :=
+  (idxRange lo hi).foldl (fun (sb : σ × Bool) i => if sb.2 then sb else body i sb.1) (st, false)
+
+theorem forRangeBrk_eq (lo hi : Nat) (st : σ) (body : Nat → σ → σ × Bool) :
+    forRangeBrk lo hi st body = (forRangeBrkAux lo hi st body).1 := rfl
+
+theorem forRangeBrkAux_zero (lo : Nat) (st : σ) (body : Nat → σ → σ × Bool) :
+    forRangeBrkAux lo lo st body = (st, false) := by
+  simp [forRangeBrkAux, idxRange_empty (Nat.le_refl lo)]
+
+theorem forRangeBrkAux_succ {lo hi : Nat} (h : lo ≤ hi) (st : σ) (body : Nat → σ → σ × Bool) :
+    forRangeBrkAux lo (hi + 1) st body =
+      if (forRangeBrkAux lo hi st body).2 then forRangeBrkAux lo hi st body
+      else body hi (forRangeBrkAux lo hi st body).1 := by
+  unfold forRangeBrkAux
+  rw [idxRange_succ h, List.foldl_append]
+  rfl
+
+/-- "first hit" semantics of the direction loop: iteration `d` runs `B d` iff `P · d` holds, and after a
+    hit the loop stops when `sep` is set.  `P` may read the state, but only parts no `B` changes.  If
+    `B d` owns cell `d`, cell `k` is updated iff `P k` and (when `sep`) no earlier index satisfied `P`. -/
+theorem forRangeBrk_first_hit (get : σ → Nat → β) (P : σ → Nat → Prop) [∀ s, DecidablePred (P s)] (sep : Bool)
+    (B : Nat → σ → σ) (g : Nat → β → β)
+    (hother : ∀ d s k, k ≠ d → get (B d s) k = get s k)
+    (hown : ∀ d s, get (B d s) d = g d (get s d))
+    (hP : ∀ d s d', P (B d s) d' ↔ P s d') (D : Nat) (st : σ) (k : Nat) :
+    get (forRangeBrk 0 D st (fun d st => if ¬ P st d then (st, false) else (B d st, sep))) k =
+      if k < D ∧ P st k ∧ (sep = true → ∀ d', d' < k → ¬ P st d') then g k (get st k) else get st k := by
+  rw [forRangeBrk_eq]
+  suffices H : ∀ D,
+      (forRangeBrkAux 0 D st (fun d st => if ¬ P st d then (st, false) else (B d st, sep))).2 = (sep && decide (∃ d, d < D ∧ P st d)) ∧
+      (∀ d', P (forRangeBrkAux 0 D st (fun d st => if ¬ P st d then (st, false) else (B d st, sep))).1 d' ↔ P st d') ∧
+      ∀ k, get (forRangeBrkAux 0 D st (fun d st => if ¬ P st d then (st, false) else (B d st, sep))).1 k =
+        if k < D ∧ P st k ∧ (sep = true → ∀ d', d' < k → ¬ P st d') then g k (get st k) else get st k from (H D).2.2 k
+  intro D
+  induction D with
+  | zero =>
+    rw [forRangeBrkAux_zero]
+    simp
+  | succ D ih =>
+    rw [forRangeBrkAux_succ (Nat.zero_le D)]
+    obtain ⟨ihb, ihp, ihg⟩ := ih
+    by_cases hb : (forRangeBrkAux 0 D st (fun d st => if ¬ P st d then (st, false) else (B d st, sep))).2 = true
+    · -- already broken: sep = true and some earlier hit
+      simp only [hb, if_true]
+      rw [ihb] at hb
+      simp only [Bool.and_eq_true, decide_eq_true_eq] at hb
+      obtain ⟨hsep, d0, hd0, hP0⟩ := hb
+      refine ⟨?_, ihp, fun k => ?_⟩
+      · simp only [hsep, Bool.true_and]
+        symm
+        rw [decide_eq_true_eq]
+        exact ⟨d0, by omega, hP0⟩
+      · rw [ihg k]
+        by_cases hkD : k = D
+        · subst hkD
+          have : ¬ (sep = true → ∀ d', d' < k → ¬ P st d') := fun h => h hsep d0 hd0 hP0
+          simp [this]
+        · exact ite_iff_congr (by constructor <;> (rintro ⟨h1, h2⟩; exact ⟨by omega, h2⟩))
+    · simp only [hb, Bool.false_eq_true, if_false]
+      have hb' : (forRangeBrkAux 0 D st (fun d st => if ¬ P st d then (st, false) else (B d st, sep))).2 = false := by
+        simpa using hb
+      rw [ihb] at hb'
+      by_cases hPD : P st D
+      · have hPD' := (ihp D).mpr hPD
+        simp only [hPD', not_true_eq_false, if_false]
+        refine ⟨?_, fun d' => (hP _ _ _).trans (ihp d'), fun k => ?_⟩
+        · cases sep with
+          | false => simp
+          | true =>
+            simp only [Bool.true_and]
+            symm
+            rw [decide_eq_true_eq]
+            exact ⟨D, by omega, hPD⟩
+        · by_cases hkD : k = D
+          · subst hkD
+            rw [hown, ihg k]
+            have hno : (sep = true → ∀ d', d' < k → ¬ P st d') := by
+              intro hs d' hd' hp
+              rw [hs] at hb'
+              simp only [Bool.true_and, decide_eq_false_iff_not] at hb'
+              exact hb' ⟨d', hd', hp⟩
+            have h1 : ¬ (k < k ∧ P st k ∧ (sep = true → ∀ d', d' < k → ¬ P st d')) := fun h => Nat.lt_irrefl _ h.1
+            rw [if_neg h1, if_pos ⟨Nat.lt_succ_self k, hPD, hno⟩]
+          · rw [hother _ _ _ hkD, ihg k]
+            exact ite_iff_congr (by constructor <;> (rintro ⟨h1, h2⟩; exact ⟨by omega, h2⟩))
+      · have hPD' : ¬ P _ D := fun h => hPD ((ihp D).mp h)
+        simp only [hPD', not_false_eq_true, if_true]
+        refine ⟨?_, ihp, fun k => ?_⟩
+        · cases sep with
+          | false => simp
+          | true =>
+            simp only [Bool.true_and, decide_eq_false_iff_not] at hb'
+            simp only [Bool.true_and]
+            symm
+            rw [decide_eq_false_iff_not]
+            rintro ⟨d, hd, hp⟩
+            by_cases hdD : d = D
+            · subst hdD; exact hPD hp
+            · exact hb' ⟨d, by omega, hp⟩
+        · rw [ihg k]
+          by_cases hkD : k = D
+          · subst hkD; simp [hPD]
+          · exact ite_iff_congr (by constructor <;> (rintro ⟨h1, h2⟩; exact ⟨by omega, h2⟩))
+
+/-- a component the `break` loop's iterations do not change -/
+theorem forRangeBrk_keep (π : σ → τ) (body : Nat → σ → σ × Bool) (h : ∀ i s, π (body i s).1 = π s)
+    (lo hi : Nat) (st : σ) : π (forRangeBrk lo hi st body) = π st := by
+  unfold forRangeBrk
+  generalize idxRange lo hi = l
+  suffices H : ∀ (sb : σ × Bool), π (l.foldl (fun (sb : σ × Bool) i => if sb.2 then sb else body i sb.1) sb).1 = π sb.1 from H (st, false)
+  induction l with
+  | nil => intro sb; rfl
+  | cons i l ih =>
+    intro sb
+    simp only [List.foldl_cons]
+    rw [ih]
+    split
+    · rfl
+    · exact h i sb.1
+
 end GSV
